@@ -111,7 +111,7 @@ def mut_borrow_consumers(view, local):
                     if st["place"]["l"] not in refs:
                         refs.add(st["place"]["l"])
                         changed = True
-                if rv["k"] == "agg" and rv.get("ak") == "tuple":
+                if rv["k"] == "agg" and rv.get("ak") in ("tuple", "closure"):
                     for i, o in enumerate(rv["ops"]):
                         if o["k"] in ("move", "copy") and o["place"]["l"] in refs and not o["place"]["p"]:
                             if i not in tuple_refs.setdefault(st["place"]["l"], set()):
@@ -120,6 +120,21 @@ def mut_borrow_consumers(view, local):
                 if rv["k"] == "use" and rv["op"]["k"] in ("move", "copy") and rv["op"]["place"]["l"] in tuple_refs:
                     pp = rv["op"]["place"]["p"]
                     if len(pp) == 1 and pp[0]["k"] == "field" and pp[0]["i"] in tuple_refs[rv["op"]["place"]["l"]]:
+                        if st["place"]["l"] not in refs:
+                            refs.add(st["place"]["l"])
+                            changed = True
+                    if not pp and st["place"]["l"] not in tuple_refs:
+                        tuple_refs[st["place"]["l"]] = set(tuple_refs[rv["op"]["place"]["l"]])   # the environment moved on
+                        changed = True
+                # a reference to an environment that holds the borrow (`&mut closure` of an expanded FnMut call), and reborrows
+                # through it: `&mut (*((*env).0))`
+                if rv["k"] == "ref" and rv["place"]["l"] in tuple_refs:
+                    pp = [e for e in rv["place"]["p"] if e["k"] != "deref"]
+                    if not pp:
+                        if st["place"]["l"] not in tuple_refs:
+                            tuple_refs[st["place"]["l"]] = set(tuple_refs[rv["place"]["l"]])
+                            changed = True
+                    elif len(pp) == 1 and pp[0]["k"] == "field" and pp[0]["i"] in tuple_refs[rv["place"]["l"]]:
                         if st["place"]["l"] not in refs:
                             refs.add(st["place"]["l"])
                             changed = True
